@@ -354,6 +354,11 @@ func (i InfixExpression) PrettyPrint(out *PrintState) *PrintState {
 		out.Print(" ", i.Literal(), " ")
 	}
 	if i.Right != nil { // nil only for the open ended range `[n:]`, which parses back as is.
+		// Infix operators are left associative: a right operand that is an infix expression of
+		// the same precedence needs parentheses (only a + (b + c) is kept flat).
+		if r, ok := i.Right.(*InfixExpression); ok && !(i.Type() == token.PLUS && r.Type() == token.PLUS) {
+			out.ExpressionPrecedence++
+		}
 		i.Right.PrettyPrint(out)
 	}
 	if needParen {
